@@ -3,10 +3,15 @@
 translate : structural facts of Expression.set/append/replace/__eq__ (ast) + the `_hash_raw_args` classes (live)
             -> lean/SqlglotModel/Generated/C08.lean (discharged by `generated_structure_ok`)
 prove     : Properties/C08.lean over the pointer-heap model Model/Tree.lean: invariant `Inv` (links / cache / dict keys)
-            preserved by new/set(all index branches)/append/replace/pop/hash/== and by every admissible history
-correspond: op histories (exhaustive over a 22-op alphabet on a 10-node base tree up to length 2 (quick) / 3 (thorough),
-            random to length 30/45) executed on real Expression objects and on the Lean model; after EVERY op both sides
-            dump (class, parent, arg_key, index, `_hash is None`, args) of EVERY allocated node and must agree exactly
+            preserved by new/set(all index branches)/append/replace/pop/hash/==/copy (the iterative __deepcopy__) and by every
+            admissible history; by transform / replace_children for any admissible user function; restored by the
+            simplifier's pointer repair loop; `==` iff equal explicit normal forms (A-hash); witnesses for negative indexes
+            and for the replace-by-own-child idiom
+correspond: op histories (exhaustive over a 35-op alphabet on a 10-node base tree up to length 2 (quick) / 3 (thorough),
+            random to length 30/45; ops incl. copy, transform(copy=False/True) and replace_children with six mirrored user
+            functions, the repair loop, set(k, None, -j)) executed on real Expression objects and on the Lean model; after
+            EVERY op both sides dump (class, parent, arg_key, index, `_hash is None`, args) of EVERY allocated node — node
+            ids included, i.e. the allocation order of __deepcopy__ — and must agree exactly
 search    : the property's own oracle on the REAL code
             * `inv_violations(root)`: a re-implementation of the invariant that walks `node.args` itself
               (links / shared / stale-hash / closure), with `fresh_hash` recomputing hashes ignoring every cache
@@ -2046,6 +2051,17 @@ def random_history(rng, max_len, wild=0.08):
     return ops
 
 
+def _unrep(out: str) -> bool:
+    """does the real state hold a NEGATIVE `index` somewhere? (only after caller misuse such as storing one node twice in a
+    list and then removing before it; the model's index field is a natural number, so such a state is outside it)"""
+    body = out.split("|", 1)[1] if "|" in out else ""
+    for cell in body.split(" "):
+        f = cell.split(":", 6)
+        if len(f) > 4 and len(f[4]) > 1 and f[4][0] == "-":
+            return True
+    return False
+
+
 def _run_real(ops):
     real = RealHeap()
     outs = []
@@ -2069,6 +2085,11 @@ def correspond(chk) -> list:
         expect.append("ok|")
         where.append((hi, -1))
         outs = _run_real(ops)
+        cut = next((i for i, o in enumerate(outs) if _unrep(o)), None)
+        if cut is not None:
+            chk.count("corr-skip:negative-index-state")
+            ops, outs = ops[:cut], outs[:cut]
+            hists[hi] = ops
         for oi, (op, out) in enumerate(zip(ops, outs)):
             lines.append(_json.dumps(op))
             expect.append(out)
@@ -2104,6 +2125,9 @@ def correspond(chk) -> list:
             outs = _run_real(BASE + seq)
             if len(outs) < len(BASE) + len(seq):
                 continue  # an earlier op of the prefix failed (already compared there)
+            if _unrep(outs[-1]):
+                chk.count("corr-skip:negative-index-state")
+                continue
             hi = len(hists)
             hists.append(BASE + seq)
             lines.append(_json.dumps({"op": "restore", "slot": depth})); expect.append("ok|"); where.append((hi, -1))
@@ -2175,14 +2199,18 @@ def hint_oracle(chk, ops) -> None:
 # ------------------------------------------------------------------------------------------ run / replay
 def run(chk: Check) -> None:
     chk.trusted.append("C08: hand-written model Model/Tree.lean of Expression.{__init__ (as cls()+set), _set_parent, set, append, "
-                       "replace, pop, __hash__, __eq__, __deepcopy__ (by result)}; tied by exact per-cell dump correspondence")
+                       "replace, pop, __hash__, __eq__, __deepcopy__ (the iterative loop), transform + dfs, replace_children} and of "
+                       "the simplifier's repair loop; tied by exact per-cell dump correspondence and by statement-level shape "
+                       "checks (ast) of the mirrored loops")
     chk.assumptions += [
         "API precondition of the theorems (Adm): a node passed to set/append/replace is not currently stored anywhere (fresh, copied or "
-        "popped) and a node being replaced/popped is attached where its own pointers say; list indexes are non-negative",
-        "A-hash: Python's hash is abstracted by uninterpreted mixing functions; `==` is structural equality only up to hash collisions",
+        "popped), a node being replaced/popped is attached where its own pointers say, a copy goes into unused cells; for transform / "
+        "replace_children the user function keeps the invariant and hands back the node itself or unattached nodes (stated along the run)",
+        "A-hash: Python's hash is abstracted by uninterpreted mixing functions; `==` is equality of the explicit normal forms only up "
+        "to hash collisions (CollisionFree)",
         "theorems are partial-correctness statements (an operation that raises or does not terminate returns no heap)",
-        "transform / replace_children / builders / optimizer rules / the replace-by-own-descendant idiom are NOT in the Lean model: "
-        "they are covered by the invariant checker on the real code (search stage) only",
+        "comments / _type / _meta, builders, optimizer rules and the replace-by-own-descendant idiom are NOT in the Lean model: they are "
+        "covered by the invariant checker on the real code (search stage) only",
     ]
     chk.write_generated(translate(chk))
     proved = chk.prove(MODULES, "Properties.C08", THEOREMS)
